@@ -726,3 +726,125 @@ Proof.
     unfold lim. rewrite <- Sem, map_length. unfold str in *.
     destruct (Nat.ltb limit (length l)); reflexivity.
 Qed.
+
+(* ------------------------------------------------------------------ a decidable recogniser of the scope *)
+
+Fixpoint span_plain (s : str) : str * str :=
+  match s with
+  | c :: s' => if is_meta c then ([], s) else let '(p, r) := span_plain s' in (c :: p, r)
+  | [] => ([], [])
+  end.
+
+Fixpoint parse_wt (fuel : nat) (s : str) : option (wt * str) :=
+  match fuel with
+  | O => None
+  | S f =>
+      let '(p, r) := span_plain s in
+      match r with
+      | c :: r1 =>
+          if c =? LB then
+            match parse_wt f r1 with
+            | Some (a, c2 :: r2) =>
+                if c2 =? COMMA then
+                  match parse_alts f r2 with
+                  | Some (more, c3 :: r3) =>
+                      if c3 =? RB then
+                        match parse_wt f r3 with
+                        | Some (rest, r4) => Some (WGroup p a more rest, r4)
+                        | None => None
+                        end
+                      else None
+                  | _ => None
+                  end
+                else None
+            | _ => None
+            end
+          else Some (WEnd p, r)
+      | [] => Some (WEnd p, r)
+      end
+  end
+with parse_alts (fuel : nat) (s : str) : option (alts * str) :=
+  match fuel with
+  | O => None
+  | S f =>
+      match parse_wt f s with
+      | Some (t, c :: r) =>
+          if c =? COMMA then
+            match parse_alts f r with
+            | Some (more, r') => Some (ACons t more, r')
+            | None => None
+            end
+          else Some (AOne t, c :: r)
+      | Some (t, []) => Some (AOne t, [])
+      | None => None
+      end
+  end.
+
+(* w is regular: plain runs (no { } , . \) and comma groups with at least two alternatives, properly nested *)
+Definition regular (w : str) : bool :=
+  match parse_wt (S (length w)) w with
+  | Some (_, []) => true
+  | _ => false
+  end.
+
+Lemma span_plain_ok : forall s p r, span_plain s = (p, r) -> s = p ++ r /\ plain p = true.
+Proof.
+  induction s as [|c s IH]; intros p r H; simpl in H.
+  - injection H as <- <-. auto.
+  - destruct (is_meta c) eqn:M.
+    + injection H as <- <-. auto.
+    + destruct (span_plain s) as [p' r'] eqn:E. injection H as <- <-.
+      destruct (IH p' r' eq_refl) as [-> Hp]. split; [reflexivity|]. unfold plain in *. simpl. now rewrite M.
+Qed.
+
+Lemma parse_sound : forall fuel,
+  (forall s t r, parse_wt fuel s = Some (t, r) -> s = U t ++ r /\ ok_wt t = true) /\
+  (forall s m r, parse_alts fuel s = Some (m, r) -> s = UA m ++ r /\ ok_alts m = true).
+Proof.
+  induction fuel as [|f [IHw IHa]]; [split; discriminate|]. split.
+  - intros s t r H. cbn [parse_wt] in H.
+    destruct (span_plain s) as [p r0] eqn:Sp. destruct (span_plain_ok _ _ _ Sp) as [-> Hp].
+    destruct r0 as [|c r1]; [injection H as <- <-; auto|].
+    destruct (c =? LB) eqn:Ec; [|injection H as <- <-; auto].
+    apply N.eqb_eq in Ec. subst c.
+    destruct (parse_wt f r1) as [[a [|c2 r2]]|] eqn:Pa; try discriminate.
+    destruct (c2 =? COMMA) eqn:Ec2; [|discriminate]. apply N.eqb_eq in Ec2. subst c2.
+    destruct (parse_alts f r2) as [[more [|c3 r3]]|] eqn:Pm; try discriminate.
+    destruct (c3 =? RB) eqn:Ec3; [|discriminate]. apply N.eqb_eq in Ec3. subst c3.
+    destruct (parse_wt f r3) as [[rest r4]|] eqn:Pr; [|discriminate].
+    injection H as <- <-.
+    destruct (IHw _ _ _ Pa) as [-> Oa]. destruct (IHa _ _ _ Pm) as [-> Om]. destruct (IHw _ _ _ Pr) as [-> Or].
+    split.
+    + cbn [U]. rewrite <- !app_assoc. simpl. rewrite <- !app_assoc. simpl. rewrite <- !app_assoc. reflexivity.
+    + simpl. now rewrite Hp, Oa, Om, Or.
+  - intros s m r H. cbn [parse_alts] in H.
+    destruct (parse_wt f s) as [[t [|c r1]]|] eqn:Pt; try discriminate.
+    + injection H as <- <-. destruct (IHw _ _ _ Pt) as [-> Ot]. auto.
+    + destruct (c =? COMMA) eqn:Ec.
+      * apply N.eqb_eq in Ec. subst c.
+        destruct (parse_alts f r1) as [[more r']|] eqn:Pm; [|discriminate]. injection H as <- <-.
+        destruct (IHw _ _ _ Pt) as [-> Ot]. destruct (IHa _ _ _ Pm) as [-> Om]. split.
+        -- cbn [UA]. rewrite <- !app_assoc. reflexivity.
+        -- simpl. now rewrite Ot, Om.
+      * injection H as <- <-. destruct (IHw _ _ _ Pt) as [-> Ot]. auto.
+Qed.
+
+Theorem regular_sound : forall w, regular w = true -> exists t, ok_wt t = true /\ U t = w.
+Proof.
+  intros w H. unfold regular in H.
+  destruct (parse_wt (S (length w)) w) as [[t [|c r]]|] eqn:P; try discriminate.
+  destruct (proj1 (parse_sound _) _ _ _ P) as [E0 Ok0]. exists t. split; [exact Ok0|]. now rewrite E0, app_nil_r.
+Qed.
+
+Theorem expand_matches_spec_regular_word : forall w, regular w = true -> to_sres (expand_word w) = spec w.
+Proof.
+  intros w H. destruct (regular_sound w H) as [t [Hok <-]]. now apply expand_matches_spec_regular.
+Qed.
+
+(* the regular words avoid all four listed classes by construction; non-vacuity: a nested example *)
+Lemma ex_regular :   (* a{b,{c,d}e,}f{x,y} *)
+  let w := [97;123;98;44;123;99;44;100;125;101;44;125;102;123;120;44;121;125] in
+  regular w = true /\ known_class w = false
+  /\ spec w = Words [[97;98;102;120]; [97;98;102;121]; [97;99;101;102;120]; [97;99;101;102;121];
+                     [97;100;101;102;120]; [97;100;101;102;121]; [97;102;120]; [97;102;121]].
+Proof. vm_compute. auto. Qed.
